@@ -467,12 +467,16 @@ def _os_read(fd, n):
         raise OSError(_errno.EBADF, "bad virtual fd")
     buf = s.pipes[fd]
     s.block_until(lambda: bool(buf), None, "os.read")
-    # the node writes 6 bytes per interrupt and reads 6: keep record boundaries
-    chunk = buf.popleft()
-    if len(chunk) > n:
-        buf.appendleft(chunk[n:])
-        chunk = chunk[:n]
-    return chunk
+    # a pipe is a byte stream: a read returns up to n bytes of whatever has been written, across write boundaries
+    out = b""
+    while buf and len(out) < n:
+        chunk = buf.popleft()
+        take = n - len(out)
+        if len(chunk) > take:
+            buf.appendleft(chunk[take:])
+            chunk = chunk[:take]
+        out += chunk
+    return out
 
 
 def _urandom(n):
